@@ -110,7 +110,7 @@ func (tree *MutableTree) AvailableVersions() []int {
 	if err != nil {
 		return nil
 	}
-	_, latestVersion, err := tree.ndb.getLatestVersion()
+	found, latestVersion, err := tree.ndb.getLatestVersion()
 	if err != nil {
 		return nil
 	}
@@ -120,6 +120,10 @@ func (tree *MutableTree) AvailableVersions() []int {
 	}
 
 	res := make([]int, 0)
+	if !found {
+		// no version has been saved yet: version 0 is not an available version
+		return res
+	}
 	if legacyLatestVersion > firstVersion {
 		for version := firstVersion; version < legacyLatestVersion; version++ {
 			has, err := tree.ndb.hasLegacyVersion(version)
